@@ -10,6 +10,9 @@ macro_rules! jobj {
 pub mod common;
 pub mod models;
 
+mod mon_c02;
+mod mon_c09;
+mod mon_c10;
 mod mon_c19;
 mod mon_c20;
 
@@ -20,6 +23,10 @@ fn main() {
     common::install_quiet_panic_hook();
     common::out::init(&args.monitor);
     match args.monitor.as_str() {
+        "noop" => {}
+        "c02" => mon_c02::run(&args),
+        "c09" => mon_c09::run(&args),
+        "c10" => mon_c10::run(&args),
         "c19" => mon_c19::run(&args),
         "c20" => mon_c20::run(&args),
         other => {
